@@ -28,6 +28,7 @@ var lit = hpackref.Choice{Rep: hpackref.RepWithout}
 func TestC09(t *testing.T) {
 	r := vf.Begin(t, "C09")
 	defer r.End()
+	defer perturbReport(r)
 	r.Describe("PRNG scenarios (synctest bubble, one server connection): 1-3 offending streams from a catalogue of stream-scoped offences - malformed field at position j of a header block that inserts dynamic-table entries before and after j (block in one frame or continued), "+
 		"body over MaxRequestBodySize (declared / undeclared), stream refused over MaxConcurrentStreams, peer RST_STREAM at five points of a request's life, handler panic, stream WINDOW_UPDATE overflow, content-length mismatch, each optionally followed by frames still in flight after the server's own RST_STREAM (DATA, trailers, CONTINUATION, WINDOW_UPDATE, RST_STREAM) - "+
 		"placed among 2-6 well-formed streams before, concurrent with and after them; the later well-formed requests are encoded with indexed references to the dynamic-table entries the offending blocks inserted. Oracle: C01's exactly-once/request/response integrity on every non-offending stream, no GOAWAY, the final probe request is served. "+
